@@ -442,10 +442,14 @@ impl Resolver {
             ir::TyKind::F64 => ty::OrderedF64,
             ir::TyKind::Uuid => ty::Uuid,
             ir::TyKind::Vec(ty) => ty::Vec(Arc::from(self.lower_type_for_hash_key(ty, false))),
-            ir::TyKind::Set(ty) => ty::Set(Arc::from(self.lower_type_for_hash_key(ty, false))),
-            ir::TyKind::Map(k, v) => ty::Map(
+            // a set / map that is itself hashed (set element, map key) has to implement
+            // `Hash`, which the AHash containers do not
+            ir::TyKind::Set(ty) => {
+                ty::BTreeSet(Arc::from(self.lower_type_for_hash_key(ty, false)))
+            }
+            ir::TyKind::Map(k, v) => ty::BTreeMap(
                 Arc::from(self.lower_type_for_hash_key(k, false)),
-                Arc::from(self.lower_type(v, false)),
+                Arc::from(self.lower_type_for_hash_key(v, false)),
             ),
             ir::TyKind::Path(p) => ty::Path(self.lower_path(p, Namespace::Ty, is_args)),
             ir::TyKind::UInt64 => ty::UInt64,
